@@ -67,7 +67,14 @@ claim("C18", "capability reachability over the VTA call graph with interpreter d
       "path and defaults to the safe library. Four genuine routes exist today and are listed as known findings. Leaks through a dependency's "
       "internals are not decided; the call graph over-approximates, so the claim is level other.", NOTE, "DESIGN.md §3 C18")
 
-for pid in ["C02","C04","C05","C07","C09","C10","C12","C13","C15","C16"]:
+claim("C10", "grammar/table agreement, inhabited-type analysis of unchecked assertions, TS-SCCP definite-panic stubs, recover-boundary reachability from goroutine roots, condition-variable wake-up rule",
+      "Absence of panics over all programs is not decidable here (about 160 explicit panics, 400 unchecked assertions); the check decides five "
+      "structural necessary conditions exactly: (R10a) no grammar token lacks a table entry at an unguarded lookup; (R10b) no unchecked assertion to "
+      "a type that no value ever has; (R10c) no interface method of a value type is an unconditional panic (24 known stubs on function values); "
+      "(R10e) every goroutine root that gRPC or `go` hands us crosses a recover before compiling/evaluating client text; (R10f) no lost wake-up on "
+      "the import cache's condition variable. Index-out-of-range, nil dereference, recursion depth and termination are not decided.", NOTE, "DESIGN.md §3 C10")
+
+for pid in ["C02","C04","C05","C07","C09","C12","C13","C15","C16"]:
     na(pid, "check under construction in this session (see DESIGN.md §3); not claimed until its rules are registered")
 na("C14", "agreement of a hand-written array matcher with strings/bytes over all sequences is a relation between runtime values computed by "
           "loops with data-dependent indices; no sound structural clause with teeth exists (DESIGN.md §3 C14)")
